@@ -5,13 +5,13 @@
 #include "rc_util.hpp"
 
 namespace vf {
-inline rc::Gen<SSong> genSong(bool allow_shared = false) {
+inline rc::Gen<SSong> genSong(bool allow_shared = false, bool allow_ports = false) {
     using namespace rc;
-    return gen::mapcat(gen::tuple(gen::weightedElement<int>({{1, 0}, {3, 1}}), rng<int>(1, 8), gen::weightedOneOf<int>({{4, gen::element(1, 24, 96, 192, 480, 960, 32767)}, {1, rng<int>(1, 32767)}})), [allow_shared](std::tuple<int, int, int> h) {
+    return gen::mapcat(gen::tuple(gen::weightedElement<int>({{1, 0}, {3, 1}}), rng<int>(1, 8), gen::weightedOneOf<int>({{4, gen::element(1, 24, 96, 192, 480, 960, 32767)}, {1, rng<int>(1, 32767)}})), [allow_shared, allow_ports](std::tuple<int, int, int> h) {
         int format = std::get<0>(h), nt = format == 0 ? 1 : std::get<1>(h); unsigned division = (unsigned)std::get<2>(h);
         auto evGen = gen::tuple(gen::weightedElement<int>({{40, 0}, {30, 1}, {15, 2}, {10, 3}, {4, 4}, {1, 5}}), rng<int>(0, 100000), rng<int>(0, 22), rng<int>(0, 1000), rng<int>(0, 1000), rng<int>(0, 1));
         auto trackGen = gen::container<std::vector<std::tuple<int, int, int, int, int, int>>>(evGen);
-        return gen::map(gen::tuple(gen::container<std::vector<std::vector<std::tuple<int, int, int, int, int, int>>>>((size_t)nt, trackGen), rng<int>(0, 3), rng<int>(0, 3)), [format, division, allow_shared](std::tuple<std::vector<std::vector<std::tuple<int, int, int, int, int, int>>>, int, int> tt) {
+        return gen::map(gen::tuple(gen::container<std::vector<std::vector<std::tuple<int, int, int, int, int, int>>>>((size_t)nt, trackGen), rng<int>(0, 3), rng<int>(0, 3)), [format, division, allow_shared, allow_ports](std::tuple<std::vector<std::vector<std::tuple<int, int, int, int, int, int>>>, int, int> tt) {
             SSong s; s.format = format; s.division = division;
             const auto &raw = std::get<0>(tt); int eot_mode = std::get<1>(tt);
             // shared mode (C07): every track plays on channels 0/1 with the same tiny key set; the last data byte carries 16*track + r so that events can be attributed
@@ -37,7 +37,10 @@ inline rc::Gen<SSong> genSong(bool allow_shared = false) {
                     case 13: e.status = (uint8_t)(0xA0 | ch); e.data = {(uint8_t)key, (uint8_t)(b % 128)}; break;
                     case 14: e.status = 0xF0; e.data = stamp; e.data.insert(e.data.begin(), 0x7D); e.data.push_back(0xF7); e.data[1] = (uint8_t)k; break; // F0 7D <track> <serial> F7 (non-commercial id: ignored by the synth)
                     case 15: e.status = 0xF7; e.data = {0x7D, (uint8_t)k, (uint8_t)(serial & 0x7F)}; break;
-                    case 16: case 17: { static const int mt[] = {0x01, 0x02, 0x03, 0x04, 0x05, 0x06, 0x07, 0x7F}; e.status = 0xFF; e.meta = (uint8_t)mt[b % 8]; e.data = stamp; if(e.meta == 0x06) { e.data.push_back('m'); e.data.push_back('k'); } break; }
+                    case 16: case 17: { static const int mt[] = {0x01, 0x02, 0x03, 0x04, 0x05, 0x06, 0x07, 0x7F}; e.status = 0xFF; e.meta = (uint8_t)mt[b % 8]; e.data = stamp; if(e.meta == 0x06) { e.data.push_back('m'); e.data.push_back('k'); }
+                        // ports mode (C08): some text metas become device-name metas (FF 09) with one of three names - a new name gives the track 16 more MIDI channels
+                        if(allow_ports && kind == 17 && (b / 8) % 2 == 0) { e.meta = 0x09; static const char *const nm[] = {"A", "B", "C"}; const char *x = nm[(b / 16) % 3]; e.data.assign(x, x + 1); }
+                        break; }
                     case 18: if(k == 0) { static const uint32_t tv[] = {500000, 250000, 1000000, 333333, 600000, 1, 0xFFFFFF, 120000}; uint32_t v = (b % 5 == 0) ? (uint32_t)(1 + (b * 7919u) % 0xFFFFFFu) : tv[b % 8]; e.status = 0xFF; e.meta = 0x51; e.data = {(uint8_t)(v >> 16), (uint8_t)(v >> 8), (uint8_t)v}; }
                              else { e.status = (uint8_t)(0xB0 | ch); e.data = {7, (uint8_t)(b % 128)}; } break;
                     case 19: if(k == 0) { e.status = 0xFF; e.meta = 0x58; e.data = {(uint8_t)(1 + b % 12), (uint8_t)(b % 4), 24, 8}; } else { e.status = (uint8_t)(0xC0 | ch); e.data = {(uint8_t)(b % 128)}; } break;
